@@ -82,8 +82,8 @@ def work_theorem(args):
         out["notes"] = {"inlined": sorted(res.notes["inlined"]), "native": sorted(res.notes["native"]),
                         "unrolled": res.notes["unrolled"],
                         "assumed_contracts": sorted(res.notes["assumed_contracts"])}
-        cli_timeout = 20 if tier == "quick" else 120
-        quick_ms = 4000 if tier == "quick" else 15000
+        cli_timeout = 40 if tier == "quick" else 240
+        quick_ms = 10000 if tier == "quick" else 40000
         rules = specs.unfold_rules(thm)
         pending = [o for o in res.obligs if not getattr(o, "inline", None)]
         native_hit = None
@@ -93,7 +93,7 @@ def work_theorem(args):
             if ns["found"]:
                 native_hit = ns
                 out["native_violation"] = {"inputs_repr": repr(ns["inputs"]), "result": ns["result"]}
-        cli_budget = 150.0 if tier == "quick" else 1200.0
+        cli_budget = 400.0 if tier == "quick" else 3000.0
         for o in res.obligs:
             if native_hit is not None and not getattr(o, "inline", None):
                 out["obligations"].append({"name": o.name_full, "group": group_of(o.name_full), "status": "skipped",
